@@ -294,6 +294,16 @@ def _wall(r, zone):
     return tzdb.us_to_fields(inst + int(tzdb.offset_at(zone, inst) * gen_dt.US)) if zone is not None else tzdb.us_to_fields(inst)
 
 
+def _fault_path(r, fs, env):
+    """a path discovery will really open under this configuration (faults on paths nobody
+    opens test nothing), sometimes any of the known ones"""
+    opened = [p for p, node in fs.items() if node and node[0] != "l" and
+              (p in FAULT_PATHS or p == (env.get("TZ", "") or "").lstrip(":"))]
+    if opened and r.random() < 0.8:
+        return r.choice(opened)
+    return r.choice(FAULT_PATHS)
+
+
 def gen(rp, rw, tier):
     z1 = rw.choice(LOCAL_ZONES)
     z2 = rw.choice(LOCAL_ZONES)
@@ -388,7 +398,7 @@ def gen(rp, rw, tier):
             elif k < 0.62:
                 nem.append(["nem", "fs_put", rw.choice(FAULT_PATHS), None])
             elif k < 0.9 and faulty:
-                f = {"path": rw.choice(FAULT_PATHS), "call": "open", "kind": rw.choice(FAULT_KINDS)}
+                f = {"path": _fault_path(rw, fs, env), "call": "open", "kind": rw.choice(FAULT_KINDS)}
                 if f["kind"] == "short":
                     f["n"] = rw.choice([0, 3, 5, 9, 12, 40])
                 nem.append(["nem", "arm", f])
@@ -396,7 +406,7 @@ def gen(rp, rw, tier):
                 nem.append(["nem", "clock", world["clock"] + rw.randrange(-10**13, 10**13)])
     if faulty and rw.random() < 0.5:
         # arm before anybody runs so that the very first discovery meets the fault
-        f = {"path": rw.choice(FAULT_PATHS[:2]), "call": "open", "kind": rw.choice(FAULT_KINDS)}
+        f = {"path": _fault_path(rw, fs, env), "call": "open", "kind": rw.choice(FAULT_KINDS)}
         if f["kind"] == "short":
             f["n"] = rw.choice([0, 3, 5, 9, 12, 40])
         nem.insert(0, ["nem", "arm", f])
